@@ -6,13 +6,13 @@ from props import dwtfam
 
 ID = 'C13'
 PROPS_MODULE = 'Props.C13'
-THEOREMS = ['C13_level_row', 'C13_closed_form', 'C13_shift']
+THEOREMS = ['C13_level_row', 'C13_closed_form', 'C13_shift', 'C13_level_col', 'C13_level_2d', 'C13_multilevel']
 VO = ['theories/Props/C13.vo', 'theories/Run/RunDwt.vo', 'theories/Run/RunSpec.vo']
 RULE = ('correspondence A: afb1d_atrous full operator matrices (6 pad modes, dilations 1,2,4, both dims, sizes below the dilated filter = multiple wraps), '
         'SWTForward (both mode names, J<=3, N,C>1) vs the model, exact; correspondence B: pywt_swt closed form vs pywt.swt; oracle: SWTForward vs pywt.swt2 '
         '(shape (N,C,4,H,W), order A,H,V,D, finest first) and circular shift equivariance. distinct by configuration.')
 TRUSTED = TRUSTED_COMMON + ['PyWavelets swt represented by pywt_swt (Proofs/SwtProofs.v), tied by correspondence B']
-ASSUMES = ['theorems: one level of the row pass for every size, filter, dilation (multi-wrap included) and its shift equivariance; column pass, band order and the level loop by correspondence + oracle']
+ASSUMES = ['theorems: row and column pass for every size, filter, dilation (multi-wrap included), one 2-D level with band order 4c+2t+s (C13_level_2d), the level loop of the module for every J with dilation doubling and both mode names (C13_multilevel), and shift equivariance of the closed form; tie to the code: correspondence + pywt.swt2 / shift oracles']
 
 
 def corr_jobs(tier, rng):
